@@ -239,10 +239,22 @@ def main():
                 mi, _ = R.run_impl(ml)
                 okp2, _o = R.build_pinned_driver()
                 mm = R.run_model(ml, pinned=True)[0] if okp2 else [None] * len(ml)
+                if pid in ('C08', 'C10', 'C12', 'C18', 'C01'):
+                    bops = magic.big_dup_ops(nums[:6])       # implementation only: the model would take minutes on maps of this size
+                    for o in bops:
+                        out_, rc_, _d = R.run_side(R.HBIN, [o['op']], timeout=120)
+                        a_ = out_[0] if (out_ and rc_ == 0 and len(out_) == 1) else ('abort' if out_ is not None else 'timeout')
+                        mops.append(o); mi.append(a_); mm.append(None)
                 notes.append('literal-guided search: new literals %s, new strings %s, %d operations' % (nums[:12], strs[:8], len(ml)))
                 for o, a, b in zip(mops, mi, mm):
                     if a in ('panic', 'abort', 'timeout') and b not in ('panic', None) and pid == 'C01':
                         found.append(dict(op=o['op'], meta=o['meta'], impl=a, model=b, why='decoding an input built around a literal that is new in the source panics')); continue
+                    if o['meta']['k'] == 'magic:dup-after-n':
+                        t_ = o['op'].split(' ')[1]
+                        if a is not None and a.startswith('ok') and (pid == 'C12' or (pid == 'C08' and t_ in ('Header', 'CoseSign1')) or (pid == 'C10' and t_ == 'CoseKey') or (pid == 'C18' and t_ == 'ClaimsSet')):
+                            o['meta']['gen'] = 'vlib/magic.py big_dup_ops: %d distinct labels, then one label twice' % o['meta']['n']
+                            found.append(dict(op=o['op'], meta=o['meta'], impl=a[:200], model=None, why='a map that repeats a label after %d distinct ones was accepted' % o['meta']['n']))
+                        continue
                     if o['meta']['k'] == 'magic:text-label-repeated' and a is not None and a.startswith('ok') and pid in ('C08', 'C10', 'C12', 'C18'):
                         found.append(dict(op=o['op'], meta=o['meta'], impl=a, model=b, why='a map that repeats a label (a text new in the source) was accepted')); continue
                     if b is not None and a is not None and P.canon_nan(a) != P.canon_nan(b) and not (a.startswith('err') and b.startswith('err')):
